@@ -5,7 +5,7 @@ import shutil
 import struct
 import tempfile
 
-from vlib import basic
+from vlib import basic, translated
 
 LEVEL = 'proof'
 RULE = ('histories on every SCREEN mode of every adapter configuration (cga, ega, ega 64k, vga, mda, ega mono, hercules, '
@@ -24,11 +24,20 @@ EXPLANATION = ('theorems (PcbV.Props.C34): for every graphics mode of the regene
                'counterexamples for the walk as it was (D11 and two-bank modes), the old Tandy-6 odd-address reader and the '
                'old text mapper. Correspondence: every operation result and the touched pixel rows of real Sessions against '
                'the compiled model. Oracle: documented memory layout of each mode applied in the pixel->address direction '
-               'to the page buffers.')
+               'to the page buffers.'
+               '; source tie: _get_coords of the CGA, EGA and Tandy-6 memory mappers and _coord_ok are translated '
+               'mechanically from the current Python AST (PcbV.Gen.Translated.cgaCoords* / egaCoords* / '
+               'tandy6Coords* / coordOk, gen/py2lean.py), proved equal to coordsCGA / coordsEGA / coordsTandy6 / '
+               'coordOk of the model for every mode record with positive page size and every address '
+               '(translated_cgaCoords_eq, translated_egaCoords_eq, translated_tandy6Coords_eq, '
+               'translated_coordOk_eq) and compared with real mapper objects, also synthetic ones '
+               '(vlib/translated.py)')
 TRUSTED_BASE = ['model PcbV.Model.VideoMem: hand transcription of framebuffer.py mappers (repaired walk) and of the '
                 'ByteMatrix slice/pack semantics as per-byte pixel groups',
                 'lean/PcbV/Gen/Modes.lean regenerated from the mapper objects built by modes.get_mode',
-                'oracle layout table in props/c34.py (segment and page size of each mode are taken as emulator configuration)']
+                'oracle layout table in props/c34.py (segment and page size of each mode are taken as emulator configuration)',
+                'translator gen/py2lean.py + PcbV.PyInt (Python int semantics in Lean), validated by '
+                'vlib/translated.py against the real functions; it covers the listed functions only']
 ASSUMPTIONS = ['addresses are kept inside the video window A0000..BFFFF except for the block/byte differential at its edges',
                'number of pages of a mode is configuration (read from the display); unmapped video bytes read as 0 and ignore writes',
                'EGA read-plane register is taken modulo 4; SCREEN 10 uses planes 1 and 3 as configured in modes.py']
@@ -837,6 +846,7 @@ def probe(cfg):
 
 
 def run(ctx):
+    translated.check_coords(ctx)
     rng = ctx.rng
     configs = all_configs()
     n_small = 1 if ctx.quick else 6
